@@ -90,6 +90,16 @@ Theorem c08_exec_rerr_resolves : forall cf labs gls, in_fragment cf labs gls ->
              all_resolved gls segs (snd (fst (apply_label_g xf (b "r")))) g'.
 Proof. exact exec_rerr_resolves. Qed.
 
+(* ... and when reads fail and the loop leaves, the failure reaches somebody: a caller is handed the protocol error, or the
+   event stream gets ConnectionClosed *)
+Theorem c08_exec_rerr_reported : forall cf labs gls, in_fragment cf labs gls ->
+  let xf := fst (xrun (xinit cf) labs) in
+  forall g', snd (apply_label_g xf (b "r")) = Some g' ->
+  x_pt (snd (fst (apply_label_g xf (b "r")))) = PExited ->
+  (exists t, In t (g_ev g') /\ exists k, t = b "ev:closed(" ++ show_closekind k ++ b ")") \/
+  (exists id pe, In (id, show_cmd_result (CRProto pe)) (g_res g')).
+Proof. exact exec_rerr_reported. Qed.
+
 (* [all_resolved] spelled out *)
 Theorem c08_all_resolved_means : forall gls segs x' g', all_resolved gls segs x' g' <->
   (x_pt x' = PExited \/ (x_pt x' = PWindow /\ x_queue x' = [])) /\
@@ -116,4 +126,5 @@ Print Assumptions c08_dead_transport_resolves_all.
 Print Assumptions c08_queue_taken_in_order.
 Print Assumptions c08_exec_eof_resolves.
 Print Assumptions c08_exec_rerr_resolves.
+Print Assumptions c08_exec_rerr_reported.
 Print Assumptions c08_exec_drain_step.
